@@ -3228,6 +3228,7 @@ where
 
             cv.state.generic_rules = self.state.generic_rules.clone();
             cv.state.eval_generic_rule = Some(ident.ident);
+            cv.state.data_location.push_str(&self.state.data_location);
             cv.state.is_group_to_choice_enum = true;
             cv.state.is_multi_type_choice = self.state.is_multi_type_choice;
             cv.visit_rule(rule)?;
@@ -3299,6 +3300,7 @@ where
 
             cv.state.generic_rules = self.state.generic_rules.clone();
             cv.state.eval_generic_rule = Some(ident.ident);
+            cv.state.data_location.push_str(&self.state.data_location);
             cv.state.is_multi_type_choice = self.state.is_multi_type_choice;
             cv.visit_rule(rule)?;
 
@@ -3371,6 +3373,7 @@ where
 
             cv.state.generic_rules = self.state.generic_rules.clone();
             cv.state.eval_generic_rule = Some(ident.ident);
+            cv.state.data_location.push_str(&self.state.data_location);
             cv.state.is_multi_type_choice = self.state.is_multi_type_choice;
             cv.visit_rule(rule)?;
 
